@@ -1,7 +1,7 @@
 (* Entry.v -- flat-list entry points of the executable models, used by the extracted
    OCaml driver for the correspondence runs (inputs and outputs are flat float lists). *)
 From Coq Require Import ZArith List Bool.
-From PV Require Import Num Model_core Spec_drex.
+From PV Require Import Num Model_core Spec_drex Model_minerals.
 From PV.gen Require Import Gen_core.
 Import ListNotations.
 
@@ -68,6 +68,46 @@ Section Entry.
         | Some (Ok (a, f)) => Ok (arr_to_list (9 * n) a ++ arr_to_list n f)
         | Some (Err e) => Err e
         | None => Err OtherError
+        end
+    | _ => Err OtherError
+    end.
+
+  (* ---- minerals glue ---------------------------------------------------------- *)
+  (* extract_vars: y(9+10n) -> F(9) ++ o(9n) ++ f(n) *)
+  Definition run_extract_vars (n : nat) (xs : list F) : res (list F) :=
+    Ok (ev_F xs ++ ev_o xs n ++ ev_f xs n).
+
+  (* apply_gbs: chi, o(9n), f(n), prev(9n) -> o'(9n) ++ f'(n) *)
+  Definition run_apply_gbs (n : nat) (xs : list F) : res (list F) :=
+    match xs with
+    | chi :: r =>
+        let '(o, r) := take (9 * n) r in
+        let '(f, r) := take n r in
+        let '(pv, r) := take (9 * n) r in
+        Ok (concat (gbs_orient chi n (chunks9 o n) (chunks9 pv n) f) ++ gbs_fracs chi n f)
+    | _ => Err OtherError
+    end.
+
+  (* update: chi, prev_o(9n), y(9+10n) -> F(9) ++ o(9n) ++ f(n) *)
+  Definition run_update (n : nat) (xs : list F) : res (list F) :=
+    match xs with
+    | chi :: r =>
+        let '(pv, r) := take (9 * n) r in
+        let '(Fb, s) := update n chi {| sn_o := chunks9 pv n; sn_f := [] |} r in
+        Ok (Fb ++ concat (sn_o s) ++ sn_f s)
+    | _ => Err OtherError
+    end.
+
+  (* eval_rhs: ints regime ph fb n a1..ak ; floats fractions(k) L(9) s Sd(9) p nn lam M y *)
+  Definition run_rhs (regime ph fb : Z) (n : nat) (assemblage : list Z) (xs : list F) : res (list F) :=
+    let '(fr, r) := take (length assemblage) xs in
+    let '(L, r) := take 9 r in
+    match r with
+    | s :: r =>
+        let '(Sd, r) := take 9 r in
+        match r with
+        | p :: nn :: lam :: M :: y => rhs regime ph fb n assemblage fr L s Sd p nn lam M y
+        | _ => Err OtherError
         end
     | _ => Err OtherError
     end.
